@@ -375,6 +375,13 @@ def _codec():
     loops = [ast.unparse(n.iter) for n in ast.walk(fn3) if isinstance(n, ast.For)]
     loops_s = [ast.unparse(n.iter) for n in ast.walk(fn) if isinstance(n, ast.For)]
     keep = find_func(tree, "_literal_eval_or_keep") if tolerant else None
+    caught = []
+    if keep is not None:
+        for n in ast.walk(keep):
+            if isinstance(n, ast.ExceptHandler) and n.type is not None:
+                caught += [ast.unparse(e) for e in (n.type.elts if isinstance(n.type, ast.Tuple) else [n.type])]
+        # literal_eval raises ValueError (malformed node) or SyntaxError (not an expression): both mean "not a literal"
+        tolerant = tolerant and {"ValueError", "SyntaxError"} <= set(caught)
     return (f"/-- {header(path, '_sanitize_attrs_nc', src, fn)}: Python types that are stringified for netCDF -/\n"
             f"def sanitizedTypes : List String := [{', '.join(lean_str(t) for t in types)}]\n"
             f"/-- {header(path, '_should_desanitize', src, fn2)}: the look-alike test on a string; `none` = IndexError on the empty string -/\n"
@@ -386,6 +393,7 @@ def _codec():
             f"    some ({body})\n"
             f"/-- {header(path, '_desanitize_attrs_nc', src, fn3)}: strings that are no Python literal are kept; both codecs walk the same attribute holders -/\n"
             f"def desanitizeKeepsNonLiterals : Bool := {'true' if tolerant else 'false'}\n"
+            f"def literalEvalCaught : List String := [{', '.join(lean_str(x) for x in caught)}]\n"
             f"def sanitizeLoops : List String := [{', '.join(lean_str(x) for x in loops_s)}]\n"
             f"def desanitizeLoops : List String := [{', '.join(lean_str(x) for x in loops)}]\n")
 
